@@ -16,6 +16,8 @@
  */
 
 #include <algorithm>
+#include <cstdint>
+#include <functional>
 #include <iomanip>
 #include <string>
 #include <utility>
@@ -86,18 +88,21 @@ KillMemoryGrowth<Base>::get_ranking_fn(
             cgroups.size() *
             (100 - static_cast<double>(growing_size_percentile_)) / 100) -
         1;
-    auto cgroups_mutable_copy = cgroups;
+    // Read every effective usage once: asking again inside the comparison
+    // can give a different answer while a cgroup is being removed, and an
+    // inconsistent comparison is undefined behaviour for nth_element.
+    std::vector<int64_t> effective_usages;
+    effective_usages.reserve(cgroups.size());
+    for (const CgroupContext& cgroup_ctx : cgroups) {
+      effective_usages.push_back(cgroup_ctx.effective_usage().value_or(0));
+    }
+    // order by effective_usage desc
     std::nth_element(
-        cgroups_mutable_copy.begin(),
-        cgroups_mutable_copy.begin() + nth,
-        cgroups_mutable_copy.end(),
-        [](const auto& a, const auto& b) {
-          // order by effective_usage desc
-          return a.get().effective_usage().value_or(0) >
-              b.get().effective_usage().value_or(0);
-        });
-    growth_kill_min_effective_usage_threshold =
-        cgroups_mutable_copy[nth].get().effective_usage().value_or(0);
+        effective_usages.begin(),
+        effective_usages.begin() + nth,
+        effective_usages.end(),
+        std::greater<int64_t>());
+    growth_kill_min_effective_usage_threshold = effective_usages[nth];
   }
 
   return [=, this](const CgroupContext& cgroup_ctx) {
